@@ -215,6 +215,22 @@ def run(tier):
             cc = A.case("c08e-%d-lazy~p%d" % (k, pi), json.loads(json.dumps(dict(prog, stanzas=[prog["stanzas"][j] for j in perm]))), t["src"], "lazy")
             cc["perm"] = perm
             cases.append(cc)
+    # the same over the wide statement pool (closed programs only: values first forced on their own or inside another call's
+    # parameters, unused variables, var/set, comprehension, scan, shorthand, print)
+    wprogs, wstats, wt = mcexec.run(tier, "c08_mcexec_wide", wide=True)
+    wsample = [p for p in wprogs if p["lazy"] == "ok"]
+    rr.shuffle(wsample)
+    wsample = wsample[: (150 if tier == "quick" else 6000)]
+    for k, p in enumerate(wsample):
+        prog = mcexec.strip_locs(p["prog"])
+        for pi, perm in enumerate(([0, 1], [1, 0])):
+            cc = A.case("c08w-%d-lazy~p%d" % (k, pi), json.loads(json.dumps(dict(prog, stanzas=[prog["stanzas"][j] for j in perm]))), wt["src"], "lazy")
+            cc["perm"] = perm
+            cases.append(cc)
+    mstats["distinct"] += wstats["distinct"]
+    mstats["states"] += wstats["states"]
+    progs = progs + wprogs
+    sample = sample + wsample
     run.add_cases("c08", cases)
     run.states += mstats["distinct"]
     run.trans += mstats["states"]
